@@ -3,3 +3,4 @@ import PvModel.Sort
 import PvModel.Vars
 import PvModel.Task
 import PvModel.Props.C13
+import PvModel.Props.C14
